@@ -28,6 +28,7 @@ type Case struct {
 type Info struct {
 	Wrap, Full, Empty, BigFill, Extreme bool
 	BigFull                             bool // a buffer of more than 300 slots was written to the brim
+	Congruent                           bool // an out-of-range argument agreed with an in-range one modulo 2^16, 2^31 or 2^32
 }
 
 // Run executes the case against the real buffer and the slice model.
@@ -111,6 +112,9 @@ func run(c Case, info *Info) *vstat.Violation {
 			if ln < 0 {
 				ln = 0
 			}
+			if CongruentInRange(ln, len(model)+1) {
+				info.Congruent = true
+			}
 			dst := make([]*int, ln)
 			for j := range dst {
 				dst[j] = sentinel
@@ -146,6 +150,9 @@ func run(c Case, info *Info) *vstat.Violation {
 			if op.N > 1<<31 || op.N < -(1<<31) {
 				info.Extreme = true
 			}
+			if CongruentInRange(op.N, len(model)+1) {
+				info.Congruent = true
+			}
 			if want > 0 && rpos+want > n1-1 && rpos > wpos {
 				info.Wrap = true
 			}
@@ -160,6 +167,9 @@ func run(c Case, info *Info) *vstat.Violation {
 			rpos = (rpos + want) % n1
 		case "a":
 			inRange := op.N >= 0 && op.N < len(model)
+			if CongruentInRange(op.N, len(model)) {
+				info.Congruent = true
+			}
 			var got *int
 			panicked := func() (p bool) {
 				defer func() {
@@ -275,6 +285,9 @@ func (i Info) Classes() []string {
 	if i.BigFull {
 		c = append(c, "big_buffer_written_to_the_brim")
 	}
+	if i.Congruent {
+		c = append(c, "argument_congruent_to_in_range_value_mod_2^16_2^31_2^32")
+	}
 	return c
 }
 
@@ -292,4 +305,31 @@ func Alphabet(cp int) []Op {
 	}
 	a = append(a, Op{K: "s", N: math.MaxInt}, Op{K: "a", N: math.MaxInt})
 	return a
+}
+
+// WideAlphabet is Alphabet plus the out-of-range arguments that agree with the smallest in-range one (index 0, count 1)
+// in their low 16, 31 or 32 bits.
+func WideAlphabet(cp int) []Op {
+	a := Alphabet(cp)
+	for _, m := range Moduli {
+		a = append(a, Op{K: "s", N: m + 1}, Op{K: "a", N: m})
+	}
+	return a
+}
+
+// Moduli are the word sizes at which an index or count could be truncated by a narrowing conversion.
+var Moduli = []int{1 << 16, 1 << 31, 1 << 32}
+
+// CongruentInRange reports whether n lies outside [0, ln) but agrees with a value inside it modulo one of the Moduli:
+// such an argument is told from an in-range one by its high bits only.
+func CongruentInRange(n, ln int) bool {
+	if n >= 0 && n < ln {
+		return false
+	}
+	for _, m := range Moduli {
+		if ((n%m)+m)%m < ln {
+			return true
+		}
+	}
+	return false
 }
